@@ -48,6 +48,9 @@ def case_st(draw):
             parts = node["p"].split("/")
             if parts[0] == root:
                 segs = parts[1:]
+                if segs and "." in segs[-1].strip(".") and draw(st.integers(0, 3)) == 0:
+                    # the name without its extension ("clean URL"): not an entry of the tree unless the twin exists
+                    segs = segs[:-1] + [segs[-1].rsplit(".", 1)[0]]
                 sp = draw(pathspell.spelling(segs, root))
             else:
                 # a node outside the root: reach it by going up
